@@ -386,7 +386,7 @@ func (g *gen) project(file, projDir string, depth int, chain []string, wdAbs boo
 			case g.r.Intn(3) == 0:
 				entry["project_directory"] = c06lib.Root + "/" + pd
 				g.tag("project_directory-abs")
-			case wdAbs || !g.clean:
+			case true: // also inside included files since fix f077fe2
 				// relative to the including project's directory
 				entry["project_directory"] = c06lib.RelTo(projDir, pd)
 				g.tag("project_directory-rel")
@@ -411,7 +411,7 @@ func (g *gen) project(file, projDir string, depth int, chain []string, wdAbs boo
 				switch {
 				case g.r.Intn(3) == 0:
 					efs = append(efs, c06lib.Root+"/"+f)
-				case wdAbs || !g.clean:
+				case true: // also inside included files since fix f077fe2
 					efs = append(efs, c06lib.RelTo(projDir, f))
 					if !wdAbs {
 						g.tag("nested-relative-env_file")
